@@ -85,6 +85,15 @@ pub struct MintBuilder {
     mints: BTreeMap<PolicyID, ScriptMint>,
 }
 
+// the sum of two mint amounts must stay a CBOR int (-2^64 ..= 2^64 - 1), otherwise it would be serialized truncated
+fn checked_mint_sum(current: i128, amount: i128) -> Result<i128, JsError> {
+    let sum = current + amount;
+    if sum < -(u64::MAX as i128) - 1 || sum > u64::MAX as i128 {
+        return Err(JsError::from_str("Mint amount is out of bounds"));
+    }
+    Ok(sum)
+}
+
 #[wasm_bindgen]
 impl MintBuilder {
     pub fn new() -> MintBuilder {
@@ -150,7 +159,7 @@ impl MintBuilder {
                         if overwrite {
                             mint.0 = amount.0;
                         } else {
-                            mint.0 += amount.0;
+                            mint.0 = checked_mint_sum(mint.0, amount.0)?;
                         }
                     }
                     _ => {}
@@ -174,7 +183,7 @@ impl MintBuilder {
                         if overwrite {
                             mint.0 = amount.0;
                         } else {
-                            mint.0 += amount.0;
+                            mint.0 = checked_mint_sum(mint.0, amount.0)?;
                         }
                     }
                     _ => {}
